@@ -1,69 +1,20 @@
-import EAO.Driver.Codec
-import EAO.Model.Assemble
-import EAO.Model.Readout
-import EAO.Model.Lagrange
-import EAO.Model.Translate
+import EAO.Driver.Core
 /-!
 Line-protocol driver: one JSON request per line on stdin, one JSON response per line on stdout.
 `{"ok": …}` or `{"err": "<class>"}`.  Unknown or ill-formed requests are answered with
-`{"err":"bad-request: …"}`, never defaulted.
+`{"err":"bad-request: …"}`, never defaulted.  Handlers are tried in order; each answers only the
+operations it knows.
 -/
 open Lean EAO EAO.Driver
 
-def vecOf (xs : List Rat) : Vec := fun j => xs.getD j 0
+def handlers : List (String → Json → Option (Except String Json)) :=
+  [handleCore]
 
 def handle (j : Json) : Except String Json := do
   let op ← field j "op" Json.getStr?
-  match op with
-  | "ping" => pure (Json.str "pong")
-  | "assemble" => do
-    let as ← field j "assets" (getList getAsset)
-    let gridI ← field j "gridI" getNats
-    let skip ← field j "skip" getStrs
-    pure (jProblem (assemble as gridI skip))
-  | "fix" => do
-    let P ← field j "problem" getProblem
-    let steps ← field j "steps" getNats
-    let xprev ← field j "xprev" getRats
-    let Q := fixWindow P steps xprev
-    pure (Json.mkObj [("l", jRats Q.l), ("u", jRats Q.u), ("fixed", jList jNat (fixedVars P steps))])
-  | "readout" => do
-    let P ← field j "problem" getProblem
-    let x := vecOf (← field j "x" getRats)
-    let assets ← field j "assets" (getList fun a => do
-      pure ((← field a "name" Json.getStr?), (← field a "nodes" getStrs)))
-    let T ← field j "T" Json.getNat?
-    let dualN ← fieldOpt j "dualN" getRats
-    let disp := assets.flatMap fun (a, nodes) => nodes.flatMap fun n => (List.range T).filterMap fun t =>
-      let v := dispatchOut P.mapping a n t x
-      if v == 0 then none else some (Json.arr #[Json.str a, Json.str n, jNat t, jRat v])
-    let dcfs := assets.flatMap fun (a, _) => (List.range T).filterMap fun t =>
-      let v := dcf P.c P.mapping a t x
-      if v == 0 then none else some (Json.arr #[Json.str a, jNat t, jRat v])
-    let prices := match dualN with
-      | none => Json.null
-      | some d => jList (fun (p : (Nat × String) × Rat) => Json.arr #[jNat p.1.1, Json.str p.1.2, jRat p.2]) (nodalPrices P.nodal d)
-    let jSpecial (r : SpecialRow) : Json := Json.arr #[Json.str r.asset, Json.str r.kind, Json.str r.name, jRat r.value, jRat r.costs]
-    let special := assets.map fun (a, _) => Json.arr #[Json.str a, jList jSpecial (specialRows P.c P.mapping a x), jList jSpecial (orderRows P.c P.mapping a x)]
-    pure (Json.mkObj [("dispatch", Json.arr disp.toArray), ("dcf", Json.arr dcfs.toArray), ("prices", prices),
-      ("special", Json.arr special.toArray), ("value", jRat (P.value x)),
-      ("dcf_total", jList (fun (a : String × List String) => Json.arr #[Json.str a.1, jRat (dcfTotal P.c P.mapping a.1 T x)]) assets)])
-  | "lagrangian" => do
-    let P ← field j "problem" getProblem
-    let y ← field j "y" getRats
-    let signok := decide (y.length = P.rows.length) && (P.rows.zip y).all fun q => decide (q.1.SignOK q.2)
-    pure (Json.mkObj [("ub", jRat (lagrangianUB P y)), ("signok", Json.bool signok)])
-  | "translate" => do
-    let P ← field j "problem" getProblem
-    let Q := translate P
-    pure (Json.mkObj [("n", jNat Q.n), ("l", jRats Q.l), ("u", jRats Q.u), ("obj", jRats Q.obj), ("bools", jList jNat Q.bools),
-      ("blocks", jList (fun (b : CvxBlock) => Json.mkObj [("kind", Json.str (kindStr b.kind)), ("rows", jList jRow b.rows)]) Q.blocks)])
-  | "check" => do   -- feasibility of a point, exact
-    let P ← field j "problem" getProblem
-    let x := vecOf (← field j "x" getRats)
-    let viol := P.rows.zipIdx.filterMap fun (r, i) => if decide (r.Sat x) then none else some (jNat i)
-    pure (Json.mkObj [("row_violations", Json.arr viol.toArray), ("value", jRat (P.value x))])
-  | _ => throw s!"unknown op {op}"
+  match handlers.findSome? (fun h => h op j) with
+  | some r => r
+  | none => throw s!"unknown op {op}"
 
 partial def loop (h : IO.FS.Stream) (out : IO.FS.Stream) : IO Unit := do
   let line ← h.getLine
